@@ -56,8 +56,8 @@ def body(run):
             [(c, c) for c in reps] + [(c, reps[min(len(reps) - 1, i + 1)]) for i, c in enumerate(reps)] + \
             [(reps[min(len(reps) - 1, i + 1)], c) for i, c in enumerate(reps)] + [(rng.choice(reps), rng.choice(reps)) for _ in range(60)]
     for c, s in pairs:
-        # the tokenising server of the harness needs the Query decoder, which refuses revisions below 54429
-        scn = rng.choice(["select", "insert", "stream"]) if min(c, s) >= 54429 else ""
+        # a query at the negotiated revision follows (below 54429 the scripted server reads it with a reader of its own)
+        scn = rng.choice(["select", "insert", "stream"])
         add(c, s, "hello", scn)
     for beh in BEHAVIOURS[1:]:
         for c, s in (pairs if T else rng.sample(pairs, 24)):
